@@ -171,21 +171,27 @@ func main() {
 					if r == nil {
 						continue // e.g. the panic for In
 					}
-					kind := "other:" + o.Src(r)
-					// strip newPyBool(...) / newPyInt(...) wrappers
-					core := r
-					for {
-						if ce, ok := core.(*ast.CallExpr); ok && len(ce.Args) == 1 {
-							if id, ok := ce.Fun.(*ast.Ident); ok && (id.Name == "newPyBool" || id.Name == "newPyInt" || id.Name == "int" || id.Name == "pyInt") {
-								core = ce.Args[0]
+					kind := ""
+					// strip newPyBool(...) / newPyInt(...) / int(...) / pyInt(...) wrappers and parentheses
+					strip := func(e ast.Expr) ast.Expr {
+						for {
+							if pe, ok := e.(*ast.ParenExpr); ok {
+								e = pe.X
 								continue
 							}
+							if ce, ok := e.(*ast.CallExpr); ok && len(ce.Args) == 1 {
+								if id, ok := ce.Fun.(*ast.Ident); ok && (id.Name == "newPyBool" || id.Name == "newPyInt" || id.Name == "int" || id.Name == "pyInt") {
+									e = ce.Args[0]
+									continue
+								}
+							}
+							return e
 						}
-						break
 					}
+					core := strip(r)
 					if be, ok := core.(*ast.BinaryExpr); ok {
-						x, xok := be.X.(*ast.Ident)
-						_, yok := be.Y.(*ast.Ident)
+						x, xok := strip(be.X).(*ast.Ident)
+						_, yok := strip(be.Y).(*ast.Ident)
 						if xok && yok && x.Name == recv {
 							kind = be.Op.String()
 						}
@@ -193,6 +199,11 @@ func main() {
 						if be, ok := ce.Args[0].(*ast.BinaryExpr); ok && be.Op == token.QUO && strings.HasPrefix(o.Src(be.X), "float64(") && strings.HasPrefix(o.Src(be.Y), "float64(") {
 							kind = "floor(float/float)"
 						}
+					}
+					if kind == "" {
+						// a shape this extractor does not understand: no facts rather than wrong facts (the run
+						// falls back to lean/Expected/C16.lean and the thorough correspondence)
+						xlib.Unreadable("pyInt.Operator: case %v returns %s", caseNames(icc), o.Src(r))
 					}
 					for _, nm := range caseNames(icc) {
 						intOps = append(intOps, [2]string{nm, kind})
